@@ -4,7 +4,7 @@ from checks import textcomp, rtcomp, rtxcomp, lybcomp
 LEAN_TARGETS = ["LyModel.Props.C01", "LyModel.Props.C01Lyb"]
 AUDIT = ["Audit/C01.lean", "Audit/C01Fn.lean"]
 GENERATED = ["XmlEsc", "JsonEsc", "Consts", "LybConsts"]
-LEAN_TARGETS += ["LyModel.Props.C05Fn"]; GENERATED += ["FnUtf8"]     # functions translated from the C source (tools/c2lean.py), bridged in lean/LyModel/Bridge
+LEAN_TARGETS += ["LyModel.Props.C05Fn", "LyModel.Props.C01FnLyb"]; GENERATED += ["FnUtf8", "FnLyb"]     # functions translated from the C source (tools/c2lean.py), bridged in lean/LyModel/Bridge
 ASSUMPTIONS = ["theorems cover the value-text layer (escaping/lexing of every string); the tree walk, with-defaults filtering and LYB framing are "
                "exercised as laws on the implementation over generated schemas and trees (api_rt), see DESIGN.md §5 C01"]
 TRUSTED = ["Python renderers in tools/checks/rtcomp.py as the independent XML / RFC 7951 JSON encoder"]
